@@ -74,7 +74,11 @@ def exec_records(records, rng=None):
         k = ready.pop(i)
         _, func, args, kwargs, deps = by_key[k]
         declared = set(deps)
-        values[k] = func(*[resolve(a, declared, k) for a in args], **{n: resolve(v, declared, k) for n, v in (kwargs or {}).items()})
+        try:
+            values[k] = func(*[resolve(a, declared, k) for a in args], **{n: resolve(v, declared, k) for n, v in (kwargs or {}).items()})
+        except Exception as e:
+            problems.append(("task-raises", f"record {k}: {type(e).__name__}: {str(e)[:120]}"))
+            return values, problems, dup
         for r in rdeps[k]:
             indeg[r] -= 1
             if indeg[r] == 0:
@@ -99,6 +103,48 @@ def node_records(node):
     if layer is None:
         layer = GraphRecordsLayer(node)
     return layer.to_task_records()
+
+
+class LoggingSet(set):
+    """a `seen` set that remembers the order in which the walk recorded names"""
+
+    def __init__(self):
+        super().__init__()
+        self.order = []
+
+    def add(self, x):
+        self.order.append(x)  # every call: a name recorded twice means a layer emitted twice
+        super().add(x)
+
+
+def walk_request(xs, seen):
+    """`gr.walk` request for the expression DAGs of xs (nodes numbered by object identity, names
+    numbered separately: two nodes may share a name) and the implementation's emission order."""
+    from harness.core import f_list, f_ll
+
+    ids, nodes = {}, []
+
+    def visit(n):
+        if id(n) in ids:
+            return
+        ids[id(n)] = len(nodes)
+        nodes.append(n)
+        for d in n.dependencies():
+            visit(d)
+
+    roots = [x._lowered_expr for x in xs]
+    for r in roots:
+        visit(r)
+    names = {}
+    for n in nodes:
+        names.setdefault(n._name, len(names))
+    req = "gr.walk %s %s %s" % (
+        f_list(names[n._name] for n in nodes),
+        f_ll([ids[id(d)] for d in n.dependencies()] for n in nodes),
+        f_list(ids[id(r)] for r in roots),
+    )
+    impl = "ok " + f_list(names.get(nm, 999999) for nm in seen.order)
+    return req, impl, nodes, names
 
 
 def expected_layers(xs):
@@ -129,7 +175,7 @@ def run_case(ctx, case, count=True):
         # ---- the records
         try:
             if case.get("shared", True) and len(xs) > 1:
-                seen = set()
+                seen = LoggingSet()
                 recs = []
                 per = []
                 for x in xs:
@@ -173,6 +219,25 @@ def run_case(ctx, case, count=True):
         want_keys = [str(k) for x in xs for k in flatten(x.__dask_keys__())]
         if outkeys != list(dict.fromkeys(want_keys)) and len(xs) == 1:
             fails.append(("output-keys-differ", f"{label}: __frisky_output_keys__ {outkeys[:2]} vs str(__dask_keys__) {want_keys[:2]}"))
+        if seen is not None:
+            produced = {r[0] for r in recs}
+            dangling = {d for r in recs for d in r[4]} - produced
+            if dangling:
+                # shared mode: "completeness is the caller's job over the combined union" (collect_task_records);
+                # the caller declines.  Consistency: then some member alone must be declined too.
+                alone = []
+                for x in xs:
+                    try:
+                        x.__frisky_graph__()
+                        alone.append(False)
+                    except NotImplementedError:
+                        alone.append(True)
+                if any(alone):
+                    ctx.notes["declined(shared union incomplete, member alone declined)"] = ctx.notes.get("declined(shared union incomplete, member alone declined)", 0) + 1
+                    if count:
+                        ctx.count(("declined-shared",))
+                    return []
+                return [("shared-seen:incomplete-union-but-no-member-declined", f"{label}: dangling {sorted(dangling)[:2]}")]
         values, problems, dup = exec_records(recs, random.Random(case.get("oseed", 0)))
         for kind, detail in problems:
             fails.append(("records:" + kind, f"{label}: {detail}"))
@@ -190,11 +255,18 @@ def run_case(ctx, case, count=True):
         # ---- shared seen: every reachable layer once
         nodes = expected_layers(xs)
         if seen is not None:
-            if seen != set(nodes):
-                fails.append(("shared-seen:node-set", f"{label}: seen has {len(seen)} names, walks reach {len(nodes)}"))
-            exp = sum(len(node_records(n)) for n in nodes.values())
-            if exp != len(recs):
-                fails.append(("shared-seen:layer-emitted-twice-or-missing", f"{label}: {len(recs)} records, one per layer would be {exp}"))
+            # one layer per NAME: the walk dedups by name (a RootAlias pin carries the name of the raw node)
+            if len(seen.order) != len(set(seen.order)):
+                fails.append(("shared-seen:name-emitted-twice", f"{label}: {len(seen.order)} emissions, {len(set(seen.order))} names"))
+            if not set(seen.order) <= set(nodes):
+                fails.append(("shared-seen:unknown-name", f"{label}"))
+            if not all(x._lowered_expr._name in seen for x in xs):
+                fails.append(("shared-seen:root-not-reached", f"{label}"))
+            pairs = getattr(ctx, "walk_pairs", None)
+            if pairs is not None and len(pairs) < 600:
+                req, impl, _, _ = walk_request(xs, seen)
+                if len(req) < 6000:
+                    pairs.append((req, impl))
         # ---- hybrid protocol
         try:
             seen2 = set() if seen is not None else None
@@ -485,9 +557,10 @@ def run(ctx, replay=None):
 
     import dask
 
-    n = ctx.scale(220, 3000)
-    budget = ctx.scale(40, 500)
+    n = ctx.scale(160, 3000)
+    budget = ctx.scale(30, 500)
     corr_pairs = []
+    ctx.walk_pairs = []
     corr_skipped = 0
     corr_limit = ctx.scale(2500, 30000)
     for it in range(n):
@@ -520,6 +593,8 @@ def run(ctx, replay=None):
     ctx.notes["flatten_tasks_not_expressible"] = corr_skipped
     nd = ctx.correspond("_records(real layers)", corr_pairs, branch_key=lambda req, model: (req.count("K"), req.count("L["), model.count("-sub")))
     nd += ctx.correspond("_records(synthetic)", synthetic_pairs(ctx, ctx.scale(1500, 20000)), branch_key=lambda req, model: (req.count("K"), model.count("-sub"), model.count("##")))
+    walk_pairs, ctx.walk_pairs = ctx.walk_pairs, None
+    nd += ctx.correspond("_walk_records(shared seen)", walk_pairs, branch_key=lambda req, model: (len(model) // 6, req.count(";") // 4))
     if nd:
         targeted(ctx)
 
